@@ -122,7 +122,9 @@ FRExpected(r, idx) ==
       [] r.op \in {"veclap", "veclapdef"} -> [j \in DOMAIN F |-> QI(LapAt(F[j], X, pt))]
       [] r.op = "adv"      -> [j \in DOMAIN F |-> QI(AdvAt(F, X, pt)[j])]
       [] r.op = "masscons" -> <<QI(DivAt(F, X, pt))>>
-      [] r.op \in {"burgers", "fisher"} -> EQ!Residual([eq |-> r.op, U |-> F, par |-> r.par, Tmax |-> r.Tmax, dim |-> r.d - 1], pt)
+      [] r.op \in {"burgers", "fisher", "ou"} -> EQ!Residual([eq |-> r.op, U |-> F, par |-> r.par, Tmax |-> r.Tmax, dim |-> r.d - 1], pt)
+      [] r.op = "ns" -> EQ!Residual([eq |-> "ns", U |-> F, P |-> SP!Fields([r EXCEPT !.coef = r.coefP, !.M = 1])[1], par |-> r.par,
+                                      Tmax |-> 1, dim |-> 2], pt)
 FRVerdict(r) ==
     IF r.exc # "" THEN "ForwardOrReverseRaised"
     ELSE IF Len(r.fwd) # Len(r.idxs) THEN "ForwardGridShape"
